@@ -22,7 +22,7 @@ func c08Legs(tier, o string) []pairLeg {
 		two := o == "SETKEYS:id,t"
 		k := Keyed(2, two)
 		if thorough {
-			k = thin(k, 700)
+			k = thin(k, 260)
 		} else {
 			k = thin(k, 110)
 		}
@@ -30,11 +30,12 @@ func c08Legs(tier, o string) []pairLeg {
 		return legs
 	}
 	if thorough {
-		add("A4x6", Arr(4, "6"))
+		add("A3x6", Arr(3, "6"))
+		add("A4x6", thin(Arr(4, "6"), 400))
 		add("A3x6@key", Placed(Arr(3, "6"), gen.Placements[1]))
 		add("A3x6@deep", Placed(Arr(3, "6"), gen.Placements[3]))
 		add("A4x123", Arr(4, "123"))
-		add("U4perm", noVoid(UPerm(4)).Filter(func(v V) bool { return ref.Nodes(v) <= 4 }))
+		add("U4perm", thin(noVoid(UPerm(4)), 500))
 	} else {
 		add("A3x6", Arr(3, "6"))
 		add("A2x6@key", Placed(Arr(2, "6"), gen.Placements[1]))
@@ -92,7 +93,7 @@ func init() {
 		Bounds: func(tier string) map[string]interface{} {
 			m := map[string]interface{}{"target_deviation_bound": 1}
 			if tier == "thorough" {
-				m["target_deviation_bound"] = "1 everywhere, 2 for documents of <= 14 characters"
+				m["target_deviation_bound"] = "1 everywhere, 2 for documents of <= 7 characters"
 			}
 			for _, o := range c08Opts {
 				for _, l := range c08Legs(tier, o) {
@@ -129,7 +130,7 @@ func enumC08(tier string, e *engine.Emitter) {
 						continue
 					}
 					dev := 1
-					if tier == "thorough" && len(at) <= 14 {
+					if tier == "thorough" && len(at) <= 7 {
 						dev = 2
 					}
 					targets := c08Targets(l.A.Vals[i], l.B.Vals[j], dev)
